@@ -116,7 +116,7 @@ static void verifier_part(const Grp &G, bool T) {
 	GennaroJareckiKrawczykRabinNTS nts(3, 1, 0, G.p, G.q, G.g, G.h, mpz_sizeinbase(G.p, 2), mpz_sizeinbase(G.q, 2), false, false);
 	CanettiGennaroJareckiKrawczykRabinDSS dss(3, 1, 0, G.p, G.q, G.g, G.h, mpz_sizeinbase(G.p, 2), mpz_sizeinbase(G.q, 2), false, false);
 	mpz_t x, y, k, r, c, s, m, v, w, t; mpz_init(x); mpz_init(y); mpz_init(k); mpz_init(r); mpz_init(c); mpz_init(s); mpz_init(m); mpz_init(v); mpz_init(w); mpz_init(t);
-	unsigned reps = T ? 4 : 1;
+	unsigned reps = (T && mpz_sizeinbase(G.q, 2) < 96) ? 4 : 1;   // the extracted model is slow on large groups
 	for (unsigned rp = 0; rp < reps; rp++)
 	for (int mk = 0; mk < 6; mk++) {
 		// message (hash value): 0, 1, q-1, q, random below q, random longer than q
@@ -178,7 +178,7 @@ static void msg_value(int mk, mpz_ptr m, const Grp &G, bool dss) {
 		default: if (dss) { gen_bits(m, mpz_sizeinbase(G.q, 2)); mpz_setbit(m, mpz_sizeinbase(G.q, 2) - 1); } else gen_bits(m, 200); break; }
 }
 
-static bool schnorr_run_once(const Grp &G, size_t n, size_t t, const std::vector<bool> &faulty, int mk, uint64_t seed) {
+static bool schnorr_run_once(std::vector<std::pair<std::string, std::string> > &pending, const Grp &G, size_t n, size_t t, const std::vector<bool> &faulty, int mk, uint64_t seed) {
 	std::vector<std::pair<std::string, std::string> > fails; std::vector<std::string> recs;
 	auto propfail = [&](const std::string &k, const std::string &w) { fails.push_back(std::make_pair(k, w)); };
 	mpz_t m; mpz_init(m); msg_value(mk, m, G, false);
@@ -199,7 +199,7 @@ static bool schnorr_run_once(const Grp &G, size_t n, size_t t, const std::vector
 	std::string ctx = "n=" + std::to_string(n) + " t=" + std::to_string(t) + " faulty=" + fs + " seed=" + std::to_string(seed) + " m=" + hx(m) + " p=" + hx(G.p) + " q=" + hx(G.q) + " g=" + hx(G.g) + " h=" + hx(G.h);
 	auto finish = [&]() {
 		if (fails.empty()) { for (auto &r : recs) fputs(r.c_str(), stdout); return true; }
-		if (FR.timing_trouble()) { fprintf(stderr, "c16: schnorr run inconclusive (time-out expired in the run; %s): %s\n", fails[0].first.c_str(), ctx.c_str()); return false; }
+		if (FR.timing_trouble()) { fprintf(stderr, "c16: schnorr run inconclusive (time-out expired in the run; %s): %s\n", fails[0].first.c_str(), ctx.c_str()); pending = fails; return false; }
 		for (auto &f : fails) verif::propfail(f.first, f.second);
 		return true; };
 	fprintf(stderr, "c16: schnorr %s wall=%.1fs\n", ctx.substr(0, 48).c_str(), FR.wall);
@@ -236,7 +236,7 @@ static bool schnorr_run_once(const Grp &G, size_t n, size_t t, const std::vector
 	return finish();
 }
 
-static bool dss_run_once(const Grp &G, size_t n, size_t t, const std::vector<bool> &faulty, int mk, bool refresh, uint64_t seed) {
+static bool dss_run_once(std::vector<std::pair<std::string, std::string> > &pending, const Grp &G, size_t n, size_t t, const std::vector<bool> &faulty, int mk, bool refresh, uint64_t seed) {
 	std::vector<std::pair<std::string, std::string> > fails; std::vector<std::string> recs;
 	auto propfail = [&](const std::string &k, const std::string &w) { fails.push_back(std::make_pair(k, w)); };
 	mpz_t m; mpz_init(m); msg_value(mk, m, G, true);
@@ -259,7 +259,7 @@ static bool dss_run_once(const Grp &G, size_t n, size_t t, const std::vector<boo
 	std::string ctx = "n=" + std::to_string(n) + " t=" + std::to_string(t) + " faulty=" + fs + " refresh=" + std::to_string(refresh) + " seed=" + std::to_string(seed) + " m=" + hx(m) + " p=" + hx(G.p) + " q=" + hx(G.q) + " g=" + hx(G.g) + " h=" + hx(G.h);
 	auto finish = [&]() {
 		if (fails.empty()) { for (auto &r : recs) fputs(r.c_str(), stdout); return true; }
-		if (FR.timing_trouble()) { fprintf(stderr, "c16: dss run inconclusive (time-out expired in the run; %s): %s\n", fails[0].first.c_str(), ctx.c_str()); return false; }
+		if (FR.timing_trouble()) { fprintf(stderr, "c16: dss run inconclusive (time-out expired in the run; %s): %s\n", fails[0].first.c_str(), ctx.c_str()); pending = fails; return false; }
 		for (auto &f : fails) verif::propfail(f.first, f.second);
 		return true; };
 	fprintf(stderr, "c16: dss %s wall=%.1fs\n", ctx.substr(0, 56).c_str(), FR.wall);
@@ -287,15 +287,26 @@ static bool dss_run_once(const Grp &G, size_t n, size_t t, const std::vector<boo
 	return finish();
 }
 
+// a failure of the validity kind (an honest party's output of a completed run does not verify) that repeats in every attempt is
+// reported even though time-outs expired in all of them; failures to complete and disagreements under time-outs never are
+static bool validity_kind(const std::string &k) { return k.find("textbook") != k.npos || k.find("library-verify") != k.npos || k.find("s-range") != k.npos; }
+template<class F> static void attempts(const char *what, size_t n, F once) {
+	std::vector<std::vector<std::pair<std::string, std::string> > > all;
+	for (int attempt = 0; attempt < 3; attempt++) { std::vector<std::pair<std::string, std::string> > pend; if (once(attempt, pend)) return; all.push_back(pend); }
+	for (auto &f : all.back()) {
+		bool every = validity_kind(f.first);
+		for (auto &a : all) { bool has = false; for (auto &g : a) if (g.first == f.first) has = true; every = every && has; }
+		if (every) { verif::propfail(f.first, f.second + " [repeated in 3 attempts, all with expired time-outs]"); }
+	}
+	fprintf(stderr, "c16: %s n=%zu: no conclusive run in 3 attempts\n", what, n);
+}
 static void schnorr_run(const Grp &G, size_t n, size_t t, const std::vector<bool> &faulty, int mk, uint64_t seed) {
 	n_sign++;
-	for (int attempt = 0; attempt < 3; attempt++) if (schnorr_run_once(G, n, t, faulty, mk, seed + 7777 * attempt)) return;
-	fprintf(stderr, "c16: schnorr n=%zu: no conclusive run in 3 attempts\n", n);
+	attempts("schnorr", n, [&](int attempt, std::vector<std::pair<std::string, std::string> > &pend) { return schnorr_run_once(pend, G, n, t, faulty, mk, seed + 7777 * attempt); });
 }
 static void dss_run(const Grp &G, size_t n, size_t t, const std::vector<bool> &faulty, int mk, bool refresh, uint64_t seed) {
 	n_sign++;
-	for (int attempt = 0; attempt < 3; attempt++) if (dss_run_once(G, n, t, faulty, mk, refresh, seed + 7777 * attempt)) return;
-	fprintf(stderr, "c16: dss n=%zu: no conclusive run in 3 attempts\n", n);
+	attempts("dss", n, [&](int attempt, std::vector<std::pair<std::string, std::string> > &pend) { return dss_run_once(pend, G, n, t, faulty, mk, refresh, seed + 7777 * attempt); });
 }
 struct Cfg { int kind; size_t n, t; std::vector<size_t> bad; int mk; bool refresh; };
 
@@ -316,6 +327,7 @@ int main(int argc, char **argv) {
 		auto pick = [&](size_t n, size_t k) { std::vector<size_t> bad; while (bad.size() < k) { size_t c = gen().below(n); if (std::find(bad.begin(), bad.end(), c) == bad.end()) bad.push_back(c); } return bad; };
 		if (!T) {
 			cfgs.push_back({0, 3, 1, {}, 3, false});
+			cfgs.push_back({0, 5, 2, {}, 0, false});
 			cfgs.push_back({0, 4, 1, pick(4, 1), 4, false});
 			cfgs.push_back({1, 3, 1, {}, 4, false});
 		} else {
